@@ -382,7 +382,8 @@ Complete(e, uid) ==
   /\ mon' = [mon EXCEPT ![e].infl = @ \ {uid}]
   /\ Unch(<<par, cnt, hs, fees, feeBase, base, link, redo, lastCS, order, pts, ownExp>>)
 
-Durable(e, uid) == \A u \in mon[e].infl : u > uid
+\* (written -- after a restart: landed or replayed -- and not in flight)
+Durable(e, uid) == uid <= mon[e].last /\ \A u \in mon[e].infl : u > uid
 
 \* release conditions for messages that reveal state (evaluated when the message leaves the node)
 MayReleaseCS(e, num) == G9(num \in DOMAIN mon[e].cp /\ Durable(e, mon[e].cp[num]))
